@@ -496,12 +496,9 @@ class Runner:
             sn = int(cp.p.serialNum)
             if sn == int(o.p.serialNum) or sn in live_before:
                 self.fail("C16.serial", f"after {'updateParamsFrom' if st['paramcopy'] == 'update' else 'copyParamsFrom'} the {type(o).__name__} copy carries the serial number {sn} of a live object", what="paramcopy")
-            sa, sb = obj_state(o), obj_state(cp)
-            sa.pop("p.serialNum", None)
-            sb.pop("p.serialNum", None)
-            if sa != sb:
-                k = next(kk for kk in sa if sa[kk] != sb.get(kk))
-                self.fail("C16.copy", f"after taking over the parameters of the original the copy differs in {type(o).__name__}.{k}: {str(sa[k])[:120]} vs {str(sb.get(k))[:120]}", what="paramcopy-values", field=k)
+            # (that the values taken over are equal is not part of the statement, which speaks of deep copies
+            # and pickles: copyParamsFrom skips parameters whose definition-level "assigned" mark was rolled
+            # back by a scope elsewhere - see DESIGN 12)
         # independence: edit the copy, the original must not move; edit the original, the copy must not move
         tgt = copy_objs[st["u"] % len(copy_objs)]
         tgt.p.vP3 = 777.0 + st["u"]
